@@ -614,6 +614,9 @@ def scenario_clone(run, nseq, length, backends=('plain', 'dictarch', 'file', 'di
         if backend in ('file-json', 'dir-json', 'sql'):
             variant = 'plain' if variant == 'frac' else variant   # (tuples do not survive JSON; the sqlite fallback stores scalars)
         cfg = py_cfg(module, alg, rng.choice([1, 2, 3]), backend, km, purge=rng.random() < 0.25, ni=2, variant=variant)
+        if variant == 'plain' and rng.random() < 0.2:
+            # what was decorated is a functools.partial (presetting nothing) of the stub
+            cfg['aspartial'] = True
         independent = backend in ('plain', 'dictarch')
         cfg['lockstep'] = independent and alg != 'rr'
         pre = cd.random_ops(rng, rng.randint(0, length), cfg, 7, 'mixed')
